@@ -18,8 +18,9 @@ Macro table entry (function M below):
   exits  number of label parameters (exit 0 = fall through)
   temps  [(local label name, ops expression)] block-local temporaries the macro documents/declares itself
          (`carry: .bit`, `twice: .vec n` ...): their jump words are scratch
-  inst   {'quick': [...], 'thorough': [...], 'sample': [...]} parameter dicts: exhaustive theorem instances per
-         tier and the larger sizes that are only SAMPLED on the real engines
+  inst   {'quick': [...], 'thorough': [...], 'sample': [...], 'deep': [...]} parameter dicts: exhaustive theorem instances
+         per tier, the larger sizes that are only SAMPLED on the real engines, and (optional) instances too expensive
+         for the thorough budget - they are SAMPLED (many operands) in thorough and enumerated only with FJVERIF_STL_DEEP=1
   seq    call template on the shared variables {x} {y} {z} when the macro takes part in the composition harness
   pin    {placeholder: garbage value} - instances whose parameter dict carries pin=1 restrict the enumerated domain of
          these (pure OUTPUT) variables to that one value (masked to the variable size) so that the inputs stay
@@ -209,7 +210,8 @@ def N_(*ns, **extra):
 
 # instance presets (hex): exhaustive sizes per tier and sampled sizes
 H1 = {'quick': N_(1), 'thorough': N_(1, 2), 'sample': N_(4, 8, 16)}           # one operand: 16 / 256 cases
-H2 = {'quick': N_(1), 'thorough': N_(1, 2), 'sample': N_(4, 8, 16)}           # two operands: 256 / 65,536 cases
+H2 = {'quick': N_(1), 'thorough': N_(1) + N_(2, w=[64]), 'sample': N_(4, 8, 16)}   # two operands: 256 / 65,536 cases (n=2 at w=64)
+H2W = {'quick': N_(1), 'thorough': N_(1, 2), 'sample': N_(4, 8, 16)}                # ... n=2 at every width
 H3 = {'quick': N_(1), 'thorough': N_(1), 'sample': N_(2, 4, 8)}               # three operands: 4,096 cases at n=1
 ONE = {'quick': [{}], 'thorough': [{}], 'sample': []}
 
@@ -299,27 +301,27 @@ HEX = [
       inst={'quick': N_(1), 'thorough': N_(1, 2), 'sample': N_(4)}),
     M('hex.count_bits', 'hex/math_basic.fj', 'def count_bits n, dst, x', 'hex.count_bits {n}, {a}, {b}',
       [('a', 'hex', '((n*4).bit_length()+3)//4'), ('b', 'hex', 'n')], 'hex_count_bits {n}',
-      inst={'quick': N_(1), 'thorough': N_(1, 2, 3), 'sample': N_(4, 8, 16)}),
+      inst={'quick': N_(1), 'thorough': N_(1, 2) + N_(3, w=[64]), 'sample': N_(4, 8, 16)}),
     # ---- hex/math.fj
     M('hex.add', 'hex/math.fj', 'def add n, dst, src', 'hex.add {n}, {a}, {b}', [('a', 'hex', 'n'), ('b', 'hex', 'n')],
-      'hex_add {n}', inst=H2, seq='hex.add {n}, {x}, {y}'),
+      'hex_add {n}', inst=H2W, seq='hex.add {n}, {x}, {y}'),
     M('hex.add/self', 'hex/math.fj', 'def add n, dst, src', 'hex.add {n}, {a}, {a}', [('a', 'hex', 'n')],
       'hex_add_self {n}', inst=H1, note='dst and src the same variable (not excluded by the documentation)'),
     M('hex.sub', 'hex/math.fj', 'def sub n, dst, src', 'hex.sub {n}, {a}, {b}', [('a', 'hex', 'n'), ('b', 'hex', 'n')],
-      'hex_sub {n}', inst=H2, seq='hex.sub {n}, {x}, {y}'),
+      'hex_sub {n}', inst=H2W, seq='hex.sub {n}, {x}, {y}'),
     M('hex.sub/self', 'hex/math.fj', 'def sub n, dst, src', 'hex.sub {n}, {a}, {a}', [('a', 'hex', 'n')],
       'hex_sub_self {n}', inst=H1, note='dst and src the same variable (not excluded by the documentation)'),
     M('hex.add_shifted', 'hex/math.fj', 'def add_shifted dst_n, src_n, dst, src, hex_shift',
       'hex.add_shifted {dn}, {sn}, {a}, {b}, {sh}', [('a', 'hex', 'dn'), ('b', 'hex', 'sn')], 'hex_add_shifted {dn} {sn} {sh}',
       inst={'quick': [dict(dn=2, sn=1, sh=1)],
-            'thorough': [dict(dn=2, sn=1, sh=0), dict(dn=2, sn=1, sh=1), dict(dn=3, sn=1, sh=1), dict(dn=3, sn=1, sh=0),
-                         dict(dn=2, sn=2, sh=0), dict(dn=3, sn=1, sh=2)],
+            'thorough': [dict(dn=2, sn=1, sh=0), dict(dn=2, sn=1, sh=1), dict(dn=3, sn=1, sh=1, w=[64]),
+                         dict(dn=2, sn=2, sh=0, w=[64]), dict(dn=3, sn=1, sh=2, w=[64])],
             'sample': [dict(dn=8, sn=3, sh=2), dict(dn=16, sn=4, sh=5)]}),
     M('hex.sub_shifted', 'hex/math.fj', 'def sub_shifted dst_n, src_n, dst, src, hex_shift',
       'hex.sub_shifted {dn}, {sn}, {a}, {b}, {sh}', [('a', 'hex', 'dn'), ('b', 'hex', 'sn')], 'hex_sub_shifted {dn} {sn} {sh}',
       inst={'quick': [dict(dn=2, sn=1, sh=1)],
-            'thorough': [dict(dn=2, sn=1, sh=0), dict(dn=2, sn=1, sh=1), dict(dn=3, sn=1, sh=1), dict(dn=3, sn=1, sh=0),
-                         dict(dn=2, sn=2, sh=0), dict(dn=3, sn=1, sh=2)],
+            'thorough': [dict(dn=2, sn=1, sh=0), dict(dn=2, sn=1, sh=1), dict(dn=3, sn=1, sh=1, w=[64]),
+                         dict(dn=2, sn=2, sh=0, w=[64]), dict(dn=3, sn=1, sh=2, w=[64])],
             'sample': [dict(dn=8, sn=3, sh=2), dict(dn=16, sn=4, sh=5)]}),
     M('hex.add_constant', 'hex/math.fj', 'def add_constant n, dst, const', 'hex.add_constant {n}, {a}, {c}',
       [('a', 'hex', 'n')], 'hex_add_constant {n} {c}',
@@ -345,15 +347,16 @@ HEX = [
       [('q', 'hex', 'n'), ('r', 'hex', 'nb'), ('a', 'hex', 'n'), ('b', 'hex', 'nb')], 'hex_div {n} {nb}', exits=1,
       temps=T_HEXDIV, pin={'q': 0x3c, 'r': 0x59},
       inst={'quick': [dict(n=1, nb=1, pin=1)],
-            'thorough': [dict(n=1, nb=1, w=[64]), dict(n=1, nb=1, pin=1, w=[32]), dict(n=2, nb=1, pin=1), dict(n=2, nb=2, pin=1, w=[64])],
+            'thorough': [dict(n=1, nb=1, w=[64]), dict(n=1, nb=1, pin=1, w=[32]), dict(n=2, nb=1, pin=1)],
+            'deep': [dict(n=2, nb=2, pin=1, w=[64])],
             'sample': [dict(n=2, nb=2), dict(n=4, nb=2), dict(n=8, nb=8)]}),
     M('hex.idiv', 'hex/div.fj', 'def idiv n, nb, q, r, a, b, div0, rem_opt',
       'hex.idiv {n}, {nb}, {q}, {r}, {a}, {b}, {x1}, {ro}',
       [('q', 'hex', 'n'), ('r', 'hex', 'nb'), ('a', 'hex', 'n'), ('b', 'hex', 'nb')], 'hex_idiv {n} {nb} {ro}', exits=1,
       temps=T_HEXIDIV, pin={'q': 0x3c, 'r': 0x59},
       inst={'quick': [dict(n=1, nb=1, ro=ro, pin=1) for ro in (0, 1, 2)],
-            'thorough': [dict(n=1, nb=1, ro=0, w=[64])] + [dict(n=1, nb=1, ro=ro, pin=1) for ro in (1, 2)]
-                        + [dict(n=2, nb=2, ro=ro, pin=1, w=[64]) for ro in (0, 1, 2)] + [dict(n=2, nb=1, ro=1, pin=1)],
+            'thorough': [dict(n=1, nb=1, ro=ro, pin=1) for ro in (0, 1, 2)] + [dict(n=2, nb=1, ro=ro, pin=1, w=[64]) for ro in (0, 1, 2)],
+            'deep': [dict(n=1, nb=1, ro=0, w=[64])] + [dict(n=2, nb=2, ro=ro, pin=1, w=[64]) for ro in (0, 1, 2)],
             'sample': [dict(n=2, nb=2, ro=ro) for ro in (0, 1, 2)] + [dict(n=4, nb=4, ro=0)]}),
     # ---- hex/shifts.fj
     M('hex.shl_bit', 'hex/shifts.fj', 'def shl_bit n, dst', 'hex.shl_bit {n}, {a}', [('a', 'hex', 'n')], 'hex_shl_bit {n}',
@@ -394,7 +397,7 @@ HEX = [
     M('hex.cmp/1', 'hex/cond_jumps.fj', 'def cmp a, b, lt, eq, gt', 'hex.cmp {a}, {b}, {x1}, {x2}, {x3}',
       [('a', 'hex', '1'), ('b', 'hex', '1')], 'hex_cmp 1', exits=3, inst=ONE),
     M('hex.cmp', 'hex/cond_jumps.fj', 'def cmp n, a, b, lt, eq, gt', 'hex.cmp {n}, {a}, {b}, {x1}, {x2}, {x3}',
-      [('a', 'hex', 'n'), ('b', 'hex', 'n')], 'hex_cmp {n}', exits=3, inst=H2),
+      [('a', 'hex', 'n'), ('b', 'hex', 'n')], 'hex_cmp {n}', exits=3, inst=H2W),
     M('hex.scmp', 'hex/cond_jumps.fj', 'def scmp n, a, b, lt, eq, gt', 'hex.scmp {n}, {a}, {b}, {x1}, {x2}, {x3}',
       [('a', 'hex', 'n'), ('b', 'hex', 'n')], 'hex_scmp {n}', exits=3, temps=[('ba', 'n'), ('bb', 'n')], inst=H2),
     M('hex.min', 'hex/cond_jumps.fj', 'def min n, dst, a, b', 'hex.min {n}, {a}, {b}, {c}',
